@@ -716,8 +716,19 @@ class Gen:
                 return self.ch([", ".join(c[0] for c in picks), "zz", "", ",", "a,,b", " , "])
             return self.ch([", ".join(self.ch(c[1] + ["None"]) if c[1] else "x" for c in picks), "zz", "", ",", "None", "a,,b"])
         if base == "facet" and k in ("name", "values"):
-            return self.ch(["genre", "programming_language", "target_product", "target_product", "tutorial", "atlas", "atlas", "zz", "", "a,b", "atlas, zz", ",",
-                            "sub_product", "sub_product", "version", "name", "display_name", "atlas-cli", "charts", "bi-connector", "v1.0", "BI Connector"])
+            # name and value are chosen together (a matching pair most of the time): nested facets are only looked at when the
+            # enclosing ones are valid
+            pair = getattr(self, "_facet_pair", None)
+            if pair is None:
+                pair = self.ch([("genre", "tutorial"), ("genre", "reference"), ("target_product", "atlas"), ("target_product", "atlas"),
+                                ("target_product", "bi-connector"), ("target_product", "drivers"), ("programming_language", "python"),
+                                ("sub_product", "atlas-cli"), ("sub_product", "charts"), ("version", "v1.0"), ("name", "atlas"), ("name", "name"),
+                                ("display_name", "BI Connector"), ("display_name", "x"), ("zz", "zz"), ("", ""), ("genre", "a,b"),
+                                ("target_product", "atlas, zz"), ("genre", ","), ("tutorial", "genre")])
+                self._facet_pair = pair
+            else:
+                self._facet_pair = None
+            return pair[0] if k == "name" else pair[1]
         if base == "list-table" and k in ("header-rows", "stub-columns"):
             return self.ch(["0", "1", "2", "9", "x", "-1", ""])
         if base == "list-table" and k == "widths":
